@@ -729,6 +729,9 @@ func c05units(tier string) []mc.Unit {
 				if c >= 0xD800 && c <= 0xDFFF {
 					continue
 				}
+				if !unicode.IsLetter(c) {
+					continue // the statement speaks of letters
+				}
 				wantOK := strings.ContainsRune(tc.alpha, unicode.ToUpper(c))
 				if u := strings.ToUpper(string(c)); len([]rune(u)) != 1 {
 					continue // special-casing to several letters: not a single letter any more
@@ -749,7 +752,7 @@ func c05units(tier string) []mc.Unit {
 		r.AddStates(cnt)
 		r.AddTransitions(cnt)
 		r.AddNontrivial(cnt)
-		r.Bound("every-rune", "every code point U+0000..U+FFFF and two windows of the supplementary planes, as one letter inside a 6-letter sequence, for DNA, RNA and PROTEIN")
+		r.Bound("every-rune", "every letter among the code points U+0000..U+FFFF and two windows of the supplementary planes, inside a 6-letter sequence, for DNA, RNA and PROTEIN")
 	}})
 	// across flags and types: same sequence, different declaration => different hash
 	us = append(us, mc.Unit{Name: "cross-flags", Weight: 20, Run: func(r *mc.Recorder) {
@@ -924,6 +927,9 @@ func c05units(tier string) []mc.Unit {
 				if strings.ContainsRune(tc.alpha, rune(c)) || strings.ContainsRune(strings.ToLower(tc.alpha), rune(c)) {
 					continue
 				}
+				if !unicode.IsLetter(rune(c)) {
+					continue // the statement speaks of letters: blanks, digits and punctuation may be skipped or refused
+				}
 				for pos := 0; pos <= 3; pos++ {
 					s := tc.base[:pos] + string(rune(c)) + tc.base[pos:]
 					for _, circ := range []bool{false, true} {
@@ -946,7 +952,7 @@ func c05units(tier string) []mc.Unit {
 		r.AddStates(cnt)
 		r.AddTransitions(cnt)
 		r.AddNontrivial(cnt)
-		r.Sample(`Hash("AC!G","DNA",...) and every other printable non-alphabet byte at every position of a 3-letter sequence must return an error`)
+		r.Sample(`Hash("ACJG","DNA",...) and every other ASCII letter outside the alphabet at every position of a 3-letter sequence must return an error`)
 	}})
 	return us
 }
